@@ -78,10 +78,13 @@ class History:
         return m
 
     def texts(self):
+        """Observation of every live member: the JSON text plus a fingerprint taken directly from the objects
+        (key sets with their Python types, container lengths), so that a read that rewrites state in a way the
+        document does not show - e.g. toJson turning a key True into 'True' - is still seen."""
         out = []
         for m in self.pool:
             try:
-                out.append(O.text(m.obj))
+                out.append(O.text(m.obj) + " #" + fingerprint(m.obj))
             except Exception as e:  # noqa: BLE001
                 out.append("<toJson raised %s>" % type(e).__name__)
         return out
@@ -132,7 +135,10 @@ class History:
                 continue
             self.count("frame_checks")
             if a != b:
-                d = O.diff(O.canon(json.loads(a)), O.canon(json.loads(b)), 0.0, exact=True) if not a.startswith("<") and not b.startswith("<") else [("$", a[:80], b[:80])]
+                ja, jb = a.split(" #")[0], b.split(" #")[0]
+                d = O.diff(O.canon(json.loads(ja)), O.canon(json.loads(jb)), 0.0, exact=True) if not a.startswith("<") and not b.startswith("<") else [("$", a[:80], b[:80])]
+                if not d:
+                    d = [("object fingerprint", a.split(" #")[-1][:200], b.split(" #")[-1][:200])]
                 self.fail("%s changed member %s, which is outside its write-set: %s" % (opdesc, self.pool[j].tag, _fmt(d)), op=opdesc, changed=self.pool[j].tag)
 
     # ------------------------------------------------------------------ operations
@@ -376,6 +382,29 @@ class History:
 
 # ------------------------------------------------------------------------------------------------
 # bookkeeping invariants on (spec, document fragment)
+
+
+def fingerprint(obj, depth=0):
+    """Identity-free structural fingerprint of a real tree: kinds, key sets with their types, lengths."""
+    if obj is None or depth > 8:
+        return "-"
+    k = type(obj).__mro__[0].__name__
+    d = getattr(obj, "__dict__", {})
+    parts = [k]
+    for name in ("bins", "pairs", "values"):
+        v = d.get(name)
+        if isinstance(v, dict):
+            keys = sorted(("%s:%r" % (type(x).__name__, x) for x in v), key=str)
+            parts.append("%s{%s}" % (name, ",".join(keys)))
+            parts.extend(fingerprint(v[x], depth + 1) for x in sorted(v, key=lambda t: (type(t).__name__, str(t))))
+        elif isinstance(v, (list, tuple)):
+            parts.append("%s[%s%d]" % (name, type(v).__name__[0], len(v)))
+            for e in v:
+                parts.append(fingerprint(e[1] if isinstance(e, tuple) else e, depth + 1))
+    for name in ("underflow", "overflow", "nanflow", "numerator", "denominator", "cut"):
+        if name in d:
+            parts.append(name + "=" + fingerprint(d[name], depth + 1))
+    return "(" + " ".join(parts) + ")"
 
 
 def _close(a, b):
